@@ -1,2 +1,2 @@
 //! C05 - decoders are total, bounded and chunking-independent on arbitrary bytes.
-mod header;
+pub mod header;
